@@ -121,10 +121,12 @@ func clientScenario(rp rep, bound int) *vx.Scenario {
 		sock.OnConnect(func() { sv.Do(func() { connected = true }) })
 		sent := false
 		echo2 := ""
+		vsched.SetExploring(false) // the handshake runs on the default schedule
 		vsched.GoQuiet("driver", func() {
 			sock.Connect()
 			vsched.Await(func() bool { return connected && nreg == 1 })
-			vrig.Settle(time.Second) // see process.go: let the server finish setting the socket up
+			vrig.Settle(time.Second) // see process.go: the set-up is over before the frames go out
+			vsched.SetExploring(true)
 			frames := make([][]byte, len(rp.Frames))
 			for i, f := range rp.Frames {
 				frames[i] = []byte(f.Data)
